@@ -1104,19 +1104,19 @@ class AutoImpBase(Prop):
     def teardown(self):
         shutil.rmtree(getattr(self, "_scratch", ""), ignore_errors=True)
 
-    def _base(self):
-        b = getattr(self, "_scratch", None)
-        if not b or not os.path.isdir(b):
-            self._scratch = b = tempfile.mkdtemp(prefix="pfbverif_%s_" % self.id.lower())
-            import atexit
-            atexit.register(shutil.rmtree, b, True)
-        return b
-
     def gen_case(self, rng, i, tier):
         return gen_case(rng)
 
     def run_impl(self, case):
-        return run_history(case, self._base())
+        b = getattr(self, "_scratch", None)
+        if b and os.path.isdir(b):
+            return run_history(case, b)
+        # called without setup() (e.g. the replay of a correspondence disagreement): own scratch, removed here
+        b = tempfile.mkdtemp(prefix="pfbverif_%s_" % self.id.lower())
+        try:
+            return run_history(case, b)
+        finally:
+            shutil.rmtree(b, ignore_errors=True)
 
     def model_requests(self, case, obs):
         return model_request(case, obs)
